@@ -108,7 +108,10 @@ func genOffender(seed uint64, tier string, force string) *Scenario {
 		off.Witness = 0
 		off.N = []int{0, 5, 40, 200, 520, 700, 1500}[r.Intn(7)]
 		off.Cut = []int{0, 0, 3, 60, 600}[r.Intn(5)]
-		off.Then = []string{"resume", "resume", "fin", "rst"}[r.Intn(4)]
+		off.Then = []string{"resume", "resume", "fin", "rst", "fail"}[r.Intn(5)]
+		if off.Then == "fail" {
+			off.Raws = failingPayloads(r, offJoined)
+		}
 		off.Poses = []int{0, 0, 1, 3, 6}[r.Intn(5)]
 		if force != "" {
 			off.Then = "resume"
